@@ -400,56 +400,49 @@ func ruleBulkOps(cx *Ctx) {
 func ruleC11ReloadArg(cx *Ctx) {
 	const rule = "C11.reloadarg"
 	cx.R.Rule(rule, 1, "a refresh of a present entry calls Reload with the old node's value, a refresh of an absent key calls Load; in the bulk variant the old value is stored into the reload record before dispatch")
-	fn := cx.need(rule, "", "cache", "refreshKey")
-	if fn == nil {
-		return
+	// single key: on the path summaries of refreshKey with the dispatch (doCall) inlined, the loader method that is
+	// finally invoked and its arguments are events: the selection may be a closure, a helper returning a function, ...
+	{
+		ev := withEv()
+		delete(ev, "group.doCall")
+		r := cx.runOp(rule, opSpec{"refreshKey(loader)", "cache", "refreshKey", map[string]string{"isManual": "false"}, "refreshKeyLoader", ev})
+		if r != nil {
+			a := newAgg(cx, rule, funcName(r.fn), cx.P.Pos(r.fn.Pos()))
+			rk := "param:" + pname(bparam(r.fn, 2))
+			oldName := "old"
+			if f := cx.P.Field("", "refreshableKey", "old"); f != nil {
+				oldName = fname(f)
+			}
+			oldT := "load(" + rk + "." + oldName + ")"
+			reloads, loads := 0, 0
+			for _, o := range r.outs {
+				if o.Cut {
+					continue
+				}
+				// the refreshable key is a struct value: its old node is read through a local copy
+				oldT := oldT
+				for atom := range o.S.preds {
+					if strings.HasPrefix(atom, "IsNil(load(") && strings.HasSuffix(atom, "."+oldName+"))") {
+						oldT = atom[6 : len(atom)-1]
+					}
+				}
+				oldNil, known := predOf(o, "IsNil("+oldT+")")
+				for _, e := range allEvents(o, "UserCall") {
+					switch e.Args[0] {
+					case "Reload":
+						reloads++
+						a.check("Reload only for present entries", known && !oldNil, "the reloading variant is chosen only when the old node is non-nil", fmt.Sprintf("old nil known=%v nil=%v", known, oldNil), o)
+						a.check("Reload old value", len(e.Args) == 5 && e.Args[4] == "Value("+oldT+")", "Reload receives rk.old.Value(), the value cached when the refresh was scheduled", fmt.Sprint(e.Args), o)
+					case "Load":
+						loads++
+						a.check("Load only for absent keys", known && oldNil, "inside the refresh task Load is chosen only when there is no old node", fmt.Sprintf("old nil known=%v nil=%v", known, oldNil), o)
+					}
+				}
+			}
+			a.check("both variants", reloads > 0 && loads > 0, "refreshKey distinguishes reload of a present entry from load of an absent key", fmt.Sprintf("%d reload path(s), %d load path(s)", reloads, loads), nil)
+			a.flush()
+		}
 	}
-	oldF := cx.P.Field("", "refreshableKey", "old")
-	foundReload, foundLoad := false, false
-	withClosures(fn, func(f *ssa.Function) {
-		allInstrs(f, func(in ssa.Instruction) {
-			if invokeName(in) == "Reload" && namedTypeName(callCommon(in).Value.Type()) == "Loader" {
-				a := callCommon(in).Args
-				ok := false
-				if len(a) == 3 {
-					if v, isCall := a[2].(*ssa.Call); isCall && invokeName(v) == "Value" && sameField(fieldOf(rootFieldLoad(v.Call.Value)), oldF) {
-						ok = true
-					}
-				}
-				foundReload = true
-				cx.R.Check(ok, rule, funcName(f), "Reload old value", cx.P.where(in), "Reload receives rk.old.Value(), the value cached when the refresh was scheduled")
-				// the closure is selected only when old != nil
-				if f.Parent() != nil {
-					allInstrs(f.Parent(), func(x ssa.Instruction) {
-						if mc, isMC := x.(*ssa.MakeClosure); isMC && mc.Fn == ssa.Value(f) {
-							g := false
-							for _, gd := range guardsAt(mc.Block()) {
-								if v, isEq, isNil := nilCmp(gd.Cond); isNil && (isEq != gd.Truth) && sameField(fieldOf(rootFieldLoad(v)), oldF) {
-									g = true
-								}
-							}
-							cx.R.Check(g, rule, funcName(f.Parent()), "Reload only for present entries", cx.P.where(mc), "the reloading closure is chosen only when the old node is non-nil")
-						}
-					})
-				}
-			}
-			if mc, isMC := in.(*ssa.MakeClosure); isMC {
-				if bf, ok := mc.Fn.(*ssa.Function); ok && bf.Name() == "Load$bound" {
-					g := false
-					for _, gd := range guardsAt(mc.Block()) {
-						if v, isEq, isNil := nilCmp(gd.Cond); isNil && (isEq == gd.Truth) && sameField(fieldOf(rootFieldLoad(v)), oldF) {
-							g = true
-						}
-					}
-					if outermost(f) == fn && f != fn {
-						foundLoad = true
-						cx.R.Check(g, rule, funcName(f), "Load only for absent keys", cx.P.where(mc), "inside the refresh task Load is chosen only when there is no old node")
-					}
-				}
-			}
-		})
-	})
-	cx.R.Check(foundReload && foundLoad, rule, funcName(fn), "both variants", cx.P.Pos(fn.Pos()), "refreshKey distinguishes reload of a present entry from load of an absent key")
 	// bulk: old value stored into the record
 	for _, spec := range bulkOps[1:] {
 		r := cx.runOp(rule, spec)
